@@ -722,6 +722,50 @@ func (c *simConn) Close() error {
 	return nil
 }
 
+// ------------------------------------------------------------- debug listener
+
+// listen stands for net.Listen below the real httpTask (sim/coreradseams): the
+// address may be busy (seam "http.listen"); a listener never accepts anything,
+// requests are handed to the handler directly.
+func (w *world) listen(network, addr string) (net.Listener, error) {
+	e := verifsim.Event{K: "http.listen", S: addr}
+	f, _ := w.decide("http.listen", 0, "", "")
+	e.F = faultTag(f)
+	w.park(f)
+	if f != nil && f.Err != "" {
+		w.fault("http.listen." + f.Err)
+		e.Err = f.Err
+		w.log.Add(e)
+		if f.Err == "opaque" {
+			return nil, errors.New("simulated opaque failure")
+		}
+		return nil, &net.OpError{Op: "listen", Net: network, Addr: &net.TCPAddr{IP: net.ParseIP("127.0.0.1"), Port: 9430}, Err: os.NewSyscallError("bind", syscall.EADDRINUSE)}
+	}
+	w.log.Add(e)
+	return &simListener{w: w, closed: make(chan struct{})}, nil
+}
+
+type simListener struct {
+	w      *world
+	once   sync.Once
+	closed chan struct{}
+}
+
+func (l *simListener) Accept() (net.Conn, error) {
+	<-l.closed
+	return nil, net.ErrClosed
+}
+
+func (l *simListener) Close() error {
+	l.once.Do(func() {
+		l.w.log.Add(verifsim.Event{K: "http.close"})
+		close(l.closed)
+	})
+	return nil
+}
+
+func (l *simListener) Addr() net.Addr { return &net.TCPAddr{IP: net.ParseIP("127.0.0.1"), Port: 9430} }
+
 // ------------------------------------------------------------------ rtnetlink
 
 func addrListString(as []AddrW) string {
